@@ -357,7 +357,9 @@ impl Serialize for AnnotationDataSet {
             } else if let Ok(id) = self.temp_id() {
                 state.serialize_field("@id", id.as_str())?;
             }
-            state.serialize_field("keys", &self.keys)?;
+            //keys that were removed leave an empty slot, which is not serialised
+            let keys: Vec<&DataKey> = self.keys.iter().filter_map(|key| key.as_ref()).collect();
+            state.serialize_field("keys", &keys)?;
             let wrappedstore: WrappedStore<AnnotationData, Self> = self.wrap_store(None);
             state.serialize_field("data", &wrappedstore)?;
         }
